@@ -65,3 +65,17 @@ Qed.
 (** [parse_content] does not create or hide [OutOfFuel] *)
 Lemma parse_content_oof tol r : parse_content tol r = OutOfFuel <-> r = OutOfFuel.
 Proof. unfold parse_content. destruct r; try destruct tol; split; congruence. Qed.
+
+(** the model's own fuel [parse_fuel s cx = length s * (8 + max_args cx) + 40 +
+    max_args cx] is at least the constant budget [8 * length s + 40] *)
+Lemma parse_fuel_eq s cx :
+  parse_fuel s cx = 8 * length s + max_args cx * length s + 40 + max_args cx.
+Proof. unfold parse_fuel, fuel_unit, fuel_base. rewrite Nat.mul_add_distr_l. lia. Qed.
+Lemma parse_fuel_ge s cx : 8 * length s + 40 <= parse_fuel s cx.
+Proof. rewrite parse_fuel_eq. lia. Qed.
+(** ... and pays [fuel_unit cx = 8 + max_args cx] units for each character *)
+Lemma parse_fuel_ge_unit s cx n : n <= length s -> fuel_unit cx * n + 40 <= parse_fuel s cx.
+Proof.
+  intros H. unfold parse_fuel, fuel_base. rewrite (Nat.mul_comm (length s)).
+  assert (fuel_unit cx * n <= fuel_unit cx * length s) by (apply Nat.mul_le_mono_l; exact H). lia.
+Qed.
